@@ -21,10 +21,13 @@ to mutate repository objects; they are counted and listed in the evidence.
 from __future__ import annotations
 
 import ast
+import os
 from dataclasses import dataclass, field
 from typing import Dict, FrozenSet, List, Optional, Sequence, Set, Tuple
 
 from .core import ClassInfo, FuncInfo, Repo, dotted, norm
+
+_TRACE = os.environ.get("QV_TRACE", "")
 
 Token = Tuple
 Value = FrozenSet[Token]
@@ -317,7 +320,8 @@ class Exec:
         return v
 
     def fresh(self, node, holds: Value = EMPTY, kind: Optional[str] = None, attr: str = "*") -> Value:
-        site = (self.fi.short, getattr(node, "lineno", 0), getattr(node, "col_offset", 0), kind or type(node).__name__)
+        # `_ord` keeps sites of inlined code apart (normalisation gives them the position of their call site)
+        site = (self.fi.short, getattr(node, "lineno", 0), getattr(node, "col_offset", 0), kind or type(node).__name__, getattr(node, "_ord", 0))
         h = self.fr.holds.setdefault(site, {})
         if holds:
             h.setdefault(attr, set()).update((t, 1) for t in holds)
@@ -508,6 +512,8 @@ class Exec:
         # FunctionDef (registered in local_funcs), Pass, Break, Continue, Import, ClassDef: nothing
 
     def assign(self, target, v: Value, node, unpack=True):
+        if _TRACE and _TRACE == self.fi.short:
+            print("TRACE assign", norm(target)[:40], "<-", sorted(v, key=str)[:6])
         if isinstance(target, ast.Name):
             if target.id in self.fr.global_decls:
                 self.fr.summary.gmut.setdefault((self.fi.short, norm(node)[:140], target.id), self.origin(node, f"global {target.id} rebound"))
@@ -765,7 +771,7 @@ class Exec:
         self.inline(fn, [], {}, node)
 
     def escape_lambda(self, lam: ast.Lambda):
-        key = ("lambda", lam.lineno, lam.col_offset)
+        key = ("lambda", lam.lineno, lam.col_offset, getattr(lam, "_ord", 0))
         if key in self.fr.escaped:
             return
         self.fr.escaped.add(key)
@@ -787,7 +793,7 @@ class Exec:
                 if isinstance(r, FuncInfo):
                     return r
         if isinstance(a, ast.Attribute):
-            tg = self.resolve_attr_call(a, [])
+            tg = self.resolve_attr_call(a, None)
             if len(tg) == 1:
                 return tg[0][0]
         return None
@@ -1054,6 +1060,13 @@ class Exec:
                     out.append((fn, not fn.is_static))
             return out
         c0 = self.class_of(v)
+        if c0 is None and isinstance(v, ast.Name) and self.lookup(v.id) is None:
+            # `ClassName.method`: the class itself is named
+            r = an.repo.resolve_name(self.fi.module, v.id)
+            if isinstance(r, ClassInfo):
+                fn = r.find_method(m)
+                if fn is not None:
+                    return [(fn, False)]
         if c0 is not None:
             seen = set()
             for c in [c0] + an.repo.subclasses(c0):
@@ -1065,7 +1078,7 @@ class Exec:
         if m.startswith("__") and m.endswith("__"):
             return []
         seen = set()
-        npos = len(call_args)
+        npos = len(call_args) if call_args is not None else 0
         for c in an.repo.classes.values():
             if m in c.methods:
                 fn = c.methods[m]
@@ -1074,7 +1087,7 @@ class Exec:
                 seen.add(fn.qualname)
                 want = len(fn.params) - (0 if fn.is_static else 1)
                 ndef = len(fn.node.args.defaults)
-                if fn.node.args.vararg is None and not any(isinstance(a, ast.Starred) for a in call_args):
+                if call_args is not None and fn.node.args.vararg is None and not any(isinstance(a, ast.Starred) for a in call_args):
                     if npos > want or npos + self._cur_nkw < want - ndef:
                         continue
                 out.append((fn, not fn.is_static))
@@ -1116,6 +1129,10 @@ class Exec:
             self.mutate(args[0], node, f"{name} writes positions into the tree", "*")
             self.mutate_deep(args[0], node, f"{name} writes positions into the tree")
             return args[0]
+        if name in ("ast.Constant", "ast.Name", "ast.Load", "ast.Store"):
+            # leaf nodes: their payload (a Python value / a string) is not a syntax node, and the only mutators of
+            # trees in this repository (NodeTransformer, fix_missing_locations) touch syntax nodes only
+            return self.fresh(node, kind="object")
         if name.startswith("ast.") and last[:1].isupper():
             hv = set()
             for a in list(args) + list(kwargs.values()):
